@@ -1233,7 +1233,23 @@ class Engine:
             if isinstance(v, ast.Constant):
                 pieces.append(v.value)
             else:
-                pieces.append(self.to_str(self.eval(v.value, env)))
+                val = self.eval(v.value, env)
+                if getattr(v, "conversion", -1) == 114:          # !r
+                    from . import builtins_model as BM
+                    val = BM.b_repr(self, [val], {})
+                spec = ""
+                if v.format_spec is not None:
+                    parts = []
+                    for fv in v.format_spec.values:
+                        if not isinstance(fv, ast.Constant):
+                            raise Unsupported("computed format spec in f-string")
+                        parts.append(fv.value)
+                    spec = "".join(parts)
+                if spec:
+                    from . import builtins_model as BM
+                    pieces.append(BM.format_spec(self, self.force(val), spec))
+                else:
+                    pieces.append(self.to_str(val))
         return mkstr(pieces)
 
     def e_Lambda(self, node, env):
@@ -2319,6 +2335,31 @@ class Engine:
             cond = z3.And(*(self.spec_conds + [cond]))
         return self.ps.feasible(cond)
 
+    _LOOP_BODY = {}
+
+    def loop_body(self, node):
+        """loop body with `if c: ...; continue` at its top level rewritten to `if c: ... else: <rest of the body>`
+        (same meaning; the arm then ends without a jump, so the two arms can be merged instead of forked)"""
+        key = id(node)
+        hit = Engine._LOOP_BODY.get(key)
+        if hit is not None and hit[0] is node:
+            return hit[1]
+
+        def rewrite(stmts):
+            for i, st in enumerate(stmts):
+                if isinstance(st, ast.If) and st.body and isinstance(st.body[-1], ast.Continue) and i + 1 < len(stmts):
+                    rest = rewrite(stmts[i + 1:])
+                    new = ast.If(test=st.test, body=(st.body[:-1] or [ast.Pass()]), orelse=list(st.orelse) + rest)
+                    ast.copy_location(new, st)
+                    for n in new.body:
+                        if not hasattr(n, "lineno"):
+                            ast.copy_location(n, st)
+                    return list(stmts[:i]) + [new]
+            return list(stmts)
+        body = rewrite(node.body)
+        Engine._LOOP_BODY[key] = (node, body)
+        return body
+
     def s_For(self, node, env):
         items = self.iterate(self.force(self.eval(node.iter, env)))
         broke = False
@@ -2327,7 +2368,7 @@ class Engine:
             for x in items:
                 self.assign_target(node.target, x, env)
                 try:
-                    self.exec_block(node.body, env)
+                    self.exec_block(self.loop_body(node), env)
                 except BreakSignal:
                     broke = True
                     break
@@ -2351,7 +2392,7 @@ class Engine:
                 if n > self.MAX_LOOP:
                     raise Unsupported("while loop bound")
                 try:
-                    self.exec_block(node.body, env)
+                    self.exec_block(self.loop_body(node), env)
                 except BreakSignal:
                     broke = True
                     break
